@@ -186,6 +186,14 @@ def run_config(ctx, rep, cfg):
                     rep.ok("C06.R3", inst, fsite(fn), "reads key-schedule fields %s like its siblings" % sorted(n), cfg=cn)
                 else:
                     rep.violation("C06.R3", inst, fsite(fn), "reads key-schedule fields %s, siblings read %s" % (sorted(n), [sorted(x) for _, x in live]), cfg=cn)
+    # the advertised parallel_size of each parallel back end equals what its slot target processes
+    from ..report import Report
+    from . import c13
+    tmp = Report("C13", "sub")
+    c13.run_config(ctx, tmp, cfg, objects=False)
+    for o in tmp.obs:
+        if o["rule"] == "C13.R6":
+            rep.add("C06.R3", o["construct"] + ":stride", o["status"], o["site"], o["detail"], cfg=cn)
     return len(backends), nsib, nlane
 
 
